@@ -41,6 +41,8 @@ func init() {
 // each text is kept and compared with the exact rendering again at the end.
 type c17Retain struct {
 	Seq []int `json:"call_sequence"` // indices into c17RetainCalls
+	// Calls, when set, replaces Seq: explicit (amount, unit) pairs (truncation twins)
+	Calls []c17Unit `json:"calls,omitempty"`
 }
 
 var c17RetainCalls = []c17Unit{{A: 123456789, Unit: 0}, {A: 1, Unit: 0}, {A: c17Cap, Unit: -8}, {A: -5, Unit: -3}, {A: 100000000, Unit: 3},
@@ -49,9 +51,12 @@ var c17RetainCalls = []c17Unit{{A: 123456789, Unit: 0}, {A: 1, Unit: 0}, {A: c17
 func c17EvalRetain(w *mc.W, cas c17Retain) {
 	w.Eval()
 	var kept []string
+	calls := cas.Calls
+	for _, k := range cas.Seq {
+		calls = append(calls, c17RetainCalls[k])
+	}
 	if msg, p := mc.Guard(func() {
-		for _, k := range cas.Seq {
-			cl := c17RetainCalls[k]
+		for k, cl := range calls {
 			a, u := bchutil.Amount(cl.A), bchutil.AmountUnit(cl.Unit)
 			if u == bchutil.AmountBCH && k%2 == 0 {
 				kept = append(kept, a.String())
@@ -63,8 +68,7 @@ func c17EvalRetain(w *mc.W, cas c17Retain) {
 		w.Ctx().Violate("tounit-or-format-panics/call-sequence", "retain", cas, msg)
 		return
 	}
-	for i, k := range cas.Seq {
-		cl := c17RetainCalls[k]
+	for i, cl := range calls {
 		var ebuf [48]byte
 		exact := string(ref.AppendShiftDecimal(ebuf[:0], cl.A, cl.Unit+8))
 		if stem := c17CheckText(kept[i], exact, cl.Unit); stem != "" {
@@ -546,7 +550,21 @@ func runC17(c *mc.Ctx) {
 				cases = append(cases, c17Retain{Seq: seq})
 			}
 		}
-		c.Space("sequences of 2..4(5) Format/String calls over 8 (amount, unit) pairs, every text kept and re-examined at the end", int64(len(cases)))
+		// truncation twins: two amounts that agree in their low k bits (k around 8..50), formatted one
+		// after the other with the same unit: a memo keyed by a narrowed amount answers with the wrong text
+		for _, a := range []int64{123456789, 1, 99999999, 0, 2099999999999999} {
+			for _, k := range []uint{8, 15, 16, 24, 31, 32, 33, 40, 47, 48, 49, 50} {
+				for _, u := range []int{0, -8, 3} {
+					for _, b := range []int64{a + 1<<k, a - 1<<k} {
+						if b > c17Cap || b < -c17Cap {
+							continue
+						}
+						cases = append(cases, c17Retain{Calls: []c17Unit{{A: a, Unit: u}, {A: b, Unit: u}}}, c17Retain{Calls: []c17Unit{{A: b, Unit: u}, {A: a, Unit: u}, {A: b, Unit: u}}})
+					}
+				}
+			}
+		}
+		c.Space("sequences of 2..4(5) Format/String calls over 8 (amount, unit) pairs and over pairs of amounts that agree in their low k bits, every text kept and re-examined at the end", int64(len(cases)))
 		w := c.Worker()
 		for _, cs := range cases {
 			w.State()
